@@ -107,81 +107,128 @@ func c05FeedsIf(v ssa.Value, seen map[ssa.Value]bool) bool {
 func (a *c05) checkStopCase() {
 	r := a.r
 	cs := a.schedCase(a.fStop)
-	construct := a.name(a.sched) + " stop case"
 	if cs == nil || cs.body == nil {
-		r.Undecide("C05.S5: the scheduler no longer has a select case receiving from Cron.stop (anchor lost)")
+		r.Undecide("C05.S5: the scheduler no longer has a select case receiving from the stop channel (anchor lost)")
 		return
 	}
-	fn := cs.fn
-	construct = a.name(fn) + " stop case"
-	R := reachableFrom(cs.body, nil)
-	if R[cs.sel.Block()] {
-		// a flag set in the stop case and tested on the way back would make the path infeasible
-		distinguishing := false
-		inS := func(b *ssa.BasicBlock) bool { return cs.body.Dominates(b) }
-		for _, b := range fn.Blocks {
-			for _, in := range b.Instrs {
-				switch x := in.(type) {
-				case *ssa.Phi:
-					for i, ed := range x.Edges {
-						if !inS(b.Preds[i]) {
-							continue
-						}
-						same := false
-						for j, ed2 := range x.Edges {
-							if j != i && !inS(b.Preds[j]) && c05SameValue(ed, ed2) {
-								same = true
-							}
-						}
-						if !same && c05FeedsIf(x, map[ssa.Value]bool{}) {
-							distinguishing = true
-						}
-					}
-				case *ssa.Store:
-					if inS(b) {
-						if _, isAlloc := x.Addr.(*ssa.Alloc); isAlloc {
-							distinguishing = true
-						}
-					}
-				}
+	construct := "scheduler: nothing happens after the stop request"
+	// path-sensitive flow: bit 1 = the stop request has been taken. Flag
+	// variables are tracked, so leaving the loops through a flag set in the stop
+	// case is followed exactly.
+	f := &c05Flow{a: a, G: 2}
+	f.Tracked = c05BoolPhi
+	first := cs.body.Instrs[0]
+	f.Step = func(in ssa.Instruction, g int) (int, bool) {
+		if in == first {
+			return 1, false
+		}
+		return g, false
+	}
+	f.Exit = func(fn *ssa.Function, g int) int {
+		if fn == a.sched {
+			return 0
+		}
+		return g
+	}
+	f.Run(nil)
+	stoppedAt := func(in ssa.Instruction) bool {
+		for _, g := range f.Globals(f.At(in)) {
+			if g == 1 {
+				return true
 			}
 		}
-		if distinguishing {
-			r.Undecide("C05.S5: the stop case of %s can reach the wait again in the CFG but sets a variable that is tested on the way; exit-by-flag is not decided", a.name(fn))
-			return
-		}
-		r.Violation("C05.S5-stop-final", construct, a.pos(cs.body.Instrs[0]),
-			"after taking the stop request the scheduler can go back to waiting on its timer and request channels: Stop has returned (its send completed) yet a later wake-up still starts jobs, and the scheduler keeps touching entries that API methods now modify under running==false")
-		return
+		return false
 	}
-	starts := a.mayStart()
+	imprecise := ""
+	for fn := range a.schedOnly {
+		if f.Imprecise[fn] {
+			imprecise = a.name(fn)
+		}
+	}
 	why := ""
-	for b := range R {
-		for _, in := range b.Instrs {
-			if ci, ok := in.(ssa.CallInstruction); ok {
-				if _, isGo := in.(*ssa.Go); isGo {
-					if h := staticCallee(ci); h != nil && len(a.runSites(h)) > 0 {
-						why = "starts a job at " + a.pos(in)
-					}
-				}
-				if cal := staticCallee(ci); cal != nil && a.p.funcSet[cal] {
-					if starts[cal] {
-						why = "calls " + a.name(cal) + " (starts jobs) at " + a.pos(in)
-					} else if touchesField(a.p, cal, a.fEntries, map[*ssa.Function]bool{}) {
-						why = "calls " + a.name(cal) + " (touches Cron.entries) at " + a.pos(in)
-					}
-				}
+	if stoppedAt(cs.sel) {
+		why = "goes back to waiting on its timer and request channels (a later wake-up still starts jobs)"
+	}
+	for _, fn := range a.funcs {
+		if !a.schedOnly[fn] {
+			continue
+		}
+		for _, ev := range a.events(fn) {
+			if stoppedAt(ev.instr) {
+				why = "starts a job at " + a.pos(ev.instr)
+			}
+		}
+		for _, acc := range FieldAccesses(fn, func(id FieldID) bool { return id == a.fEntries }) {
+			if stoppedAt(acc.Instr) {
+				why = "touches Cron.entries at " + a.pos(acc.Instr) + " (API methods now modify it under running==false)"
 			}
 		}
 	}
-	for _, acc := range FieldAccesses(fn, func(id FieldID) bool { return id == a.fEntries }) {
-		if R[acc.Instr.Block()] {
-			why = "touches Cron.entries at " + a.pos(acc.Instr)
-		}
+	if why != "" && imprecise != "" {
+		r.Undecide("C05.S5-stop-final: after the stop request the scheduler may still act, but %s branches on more flag variables than the checker follows", imprecise)
+		return
 	}
-	r.Check(why == "", "C05.S5-stop-final", construct, a.pos(cs.body.Instrs[0]),
+	r.Check(why == "", "C05.S5-stop-final", construct, a.pos(first),
 		"after the stop request every path leaves the scheduler without waiting again, starting a job or touching entries",
 		"after taking the stop request (Stop's send has completed, Stop may have returned) the scheduler still "+why)
+}
+
+// checkRearm (S7-rearm): whenever the scheduler waits, the wake-up it waits for
+// was chosen after the last change of Cron.entries / of an entry's Next: a
+// mutation (entry added, removed, Next recomputed) is followed by a new arming
+// decision before the next wait, otherwise an entry that became the earliest
+// is slept through.
+func (a *c05) checkRearm() {
+	r := a.r
+	cs := a.schedCase(a.fStop)
+	if cs == nil {
+		return
+	}
+	arms := map[ssa.Instruction]bool{}
+	for _, s := range a.armSites() {
+		arms[s] = true
+	}
+	for _, fn := range a.funcs {
+		if !a.schedOnly[fn] {
+			continue
+		}
+		allInstrs(fn, func(in ssa.Instruction) {
+			if mc, ok := in.(*ssa.MakeChan); ok {
+				if ch, ok := mc.Type().Underlying().(*types.Chan); ok && namedKey(ch.Elem()) == "time.Time" {
+					arms[in] = true // "nothing to wait for": a channel that never fires
+				}
+			}
+		})
+	}
+	f := &c05Flow{a: a, G: 2}
+	f.Tracked = c05BoolPhi
+	f.Step = func(in ssa.Instruction, g int) (int, bool) {
+		if arms[in] {
+			return 1, false
+		}
+		if st, ok := in.(*ssa.Store); ok {
+			if _, ok := c05FieldAddr(st.Addr, a.fEntries); ok {
+				return 0, false
+			}
+			if _, ok := c05FieldAddr(st.Addr, a.fNext); ok {
+				return 0, false
+			}
+		}
+		return g, false
+	}
+	f.Run(nil)
+	ok, reached := f.All(cs.sel, func(g int) bool { return g == 1 })
+	if !ok {
+		for fn := range a.schedOnly {
+			if f.Imprecise[fn] {
+				r.Undecide("C05.S7-rearm: the wait may follow a mutation without a new arming, but %s branches on more flag variables than the checker follows", a.name(fn))
+				return
+			}
+		}
+	}
+	r.Check(ok && reached, "C05.S7-rearm", "scheduler: timer re-armed after every change of the entries", a.pos(cs.sel),
+		"every wait follows an arming decision made after the last change of Cron.entries / Entry.Next",
+		"on some path the scheduler goes back to waiting after Cron.entries or an entry's Next changed (entry added/removed, Next recomputed) without choosing the wake-up again: the timer still targets the old earliest entry, the new earliest activation is slept through and started late")
 }
 
 // caseFlow: a flow whose state bits are set when the scheduler takes a
@@ -232,7 +279,7 @@ func (a *c05) checkRemoveCase() {
 		for k, arg := range call.Call.Args {
 			if k < len(h.Params) && a.idType != nil && types.Identical(h.Params[k].Type(), a.idType) {
 				takesID = true
-				if arg == cs.recv {
+				if c05SameVar(arg, cs.recv) {
 					passes = true
 				}
 			}
